@@ -418,7 +418,7 @@ pub fn state_ops_after<Q: Qx>(thorough: bool) -> Vec<CellDef> {
 pub fn order_independence<Q: Qx>(thorough: bool) -> Vec<CellDef> {
     let n = <Q::P as Fx>::N;
     let es = <Q::P as Fx>::ES;
-    let al: Vec<u32> = thin(&alphabet(n, es, false), match n { 8 => 8, 16 => 40, _ => 180 } / if thorough { 3 } else { 1 });
+    let al: Vec<u32> = thin(&alphabet(n, es, false), match n { 8 => 8, 16 => 40, _ => 180 } / if thorough { 2 } else { 1 });
     // terms = operand pairs (x, y) from the thinned alphabet, with a sign
     let na = al.len() as u64;
     let nt = na * na * 2;
